@@ -40,6 +40,7 @@ type Prog struct {
 	fieldPtrWriters map[string]map[*ssa.Function]bool
 	ptrWritesMemo   map[string][]ptrWrite
 	paramMap        map[*ssa.Function][]int
+	soleArgBusy     map[*ssa.Function]bool
 	// NormaliseLog: what normalise.go rewrote before the analysis (empty on the reference tree)
 	NormaliseLog []string
 }
